@@ -300,4 +300,18 @@ PROPS = {
 NOT_APPLICABLE = {}
 
 # guarded hook commits in /repo
-HOOK_COMMITS = []
+HOOK_COMMITS = [
+    "946ef90",  # kernel verif::point, ripd verif_export with SSE pipe feed
+    "9d3fe7f",  # export WorkspaceCheckpointHook
+    "15272ef",  # task log writer / range reader / capture_stream exports, router constructor
+    "8e41b93",  # rustfmt of the hook module
+    "2c91275",  # yield points in the authority lock protocol
+    "7e7b217",  # yield points in the session/task emitters and SSE handlers; VerifApp
+    "74790a5",  # yield points around the continuity append paths
+    "e81315d",  # yield point before branch/handoff take the seq lock
+    "0546f95",  # VerifApp::engine
+    "b161359",  # OpenResponsesConfig, tool-call collector, tool-choice enforcement
+    "008b156",  # run-time context compile entry point
+    "dd2e088",  # run-linked append helpers
+    "9adb383",  # crash points of the append path
+]
